@@ -192,6 +192,10 @@ class FlatColumn:
                 if self.length is None:
                     self.length = _length
 
+        # map literals to ColumnDisposition (to_dict and to_json write the member's value)
+        if self.disposition is not None and self.disposition.__class__ is not ColumnDisposition:
+            self.disposition = ColumnDisposition(self.disposition)
+
         # if we have a default value, parse it to the correct type and fail if we can't
         if self.default:
             try:
